@@ -62,7 +62,7 @@ def run_mutant(m):
         env = dict(os.environ, VERIF_REPO=repo, VERIF_TARGET_DIR=tdir, VERIF_NO_EVIDENCE="1")
         fired = []
         outs = []
-        props = sorted({p for (p, k) in m["expects"]}) or ["C%02d" % i for i in range(1, 21)]
+        props = sorted({p for (p, k) in m["expects"]}) or m.get("props") or ["C%02d" % i for i in range(1, 21)]
         for prop in props:
             r = subprocess.run([os.path.join(VERIF, "check"), prop], env=env, stdout=subprocess.PIPE, stderr=subprocess.STDOUT, text=True)
             outs.append(r.stdout)
